@@ -569,8 +569,8 @@ class McStateExtra(TlbScheme):
             raise BlockError(f'McStateExtra deserialization error expected flags <= 1, got: {flags}')
         validator_info = ValidatorInfo.deserialize(ref)
         prev_blocks = OldMcBlocksInfo.deserialize(ref)
+        ref.load_bits(65)  # the root extra of the HashmapAugE (KeyMaxLt: key:Bool max_end_lt:uint64), which load_hashmap_aug_e leaves unread
         after_key_block = ref.load_bool()
-        ref.load_bits(65)  # TODO why ?
         last_key_block = ExtBlkRef.deserialize(ref) if ref.load_bit() else None
         block_create_stats = None
         if bin(flags)[-1] == '1':
@@ -624,6 +624,9 @@ class McBlockExtra(TlbScheme):
         key_block = cell_slice.load_bit()
         shard_hashes = deserialize_shard_hashes(cell_slice)
         shard_fees = cell_slice.load_maybe_ref()
+        # ShardFees is a HashmapAugE: its root extra (shard_fee_created fees:CurrencyCollection create:CurrencyCollection) follows
+        CurrencyCollection.deserialize(cell_slice)
+        CurrencyCollection.deserialize(cell_slice)
         ref = cell_slice.load_ref().begin_parse()
         prev_blk_signatures = ref.load_dict(16)
         recover_create_msg = ref.load_maybe_ref()
@@ -755,7 +758,9 @@ class BlockCreateStats(TlbScheme):
 
             def y_deserializer(src):
                 return src.load_uint(32)
-            return cls(type_, cell_slice.load_hashmap_aug_e(256, x_deserializer=CreatorStats.deserialize, y_deserializer=y_deserializer))
+            counters = cell_slice.load_hashmap_aug_e(256, x_deserializer=CreatorStats.deserialize, y_deserializer=y_deserializer)
+            cell_slice.load_uint(32)  # the root extra of the HashmapAugE, which load_hashmap_aug_e leaves unread
+            return cls(type_, counters)
         else:
             raise BlockError(f'BlockCreateStats deserialization error tag: {tag}')
 
